@@ -67,7 +67,7 @@ def sessions(ctx, progs, n, leg):
             else:
                 ctx.inconclusive_cases += 1
             continue
-        verdict, detail = diff.compare_history(forms, rec["steps"])
+        verdict, detail = diff.compare_history(forms, rec["steps"], fuel=400000)
         if verdict == "ok":
             ctx.count("sessions_agree"); ctx.count("session_forms", len(forms))
         elif verdict in ("oom", "fuel"):
